@@ -229,12 +229,17 @@ pub fn check(case: &Case, p: &mut Probe) -> Check {
     let mut prev: Option<(Vec<u8>, Vec<u8>)> = None;
     for t in 0..nmsg {
         let msg = msg_at(t, &mut s);
-        let cw = guarded(|| enc.encode(&to_gf2(&msg))).map_err(|e| Fail::new("encode-panic", format!("encode panicked: {e}")))?;
+        // the message is handed over in a memory layout that varies with the message index
+        // (owned, reversed view, strided views, offset sub-range): encode takes any ArrayBase
+        let lay = ((case.msg_seed as usize).wrapping_add(t) % LAYOUTS as usize) as u8;
+        let gmsg: Vec<GF2> = to_gf2(&msg).to_vec();
+        let cw = guarded(|| with_layout(&gmsg, GF2::one(), lay, |v| enc.encode(&v))).map_err(|e| Fail::new("encode-panic", format!("encode panicked (message layout {}): {e}", layout_name(lay))))?;
         let cw = from_gf2(&cw);
+        p.class_if(lay != 0, "message-in-non-standard-layout");
         p.inner += 1;
         ensure!(cw.len() == n, "length", "codeword has length {} instead of {n}", cw.len());
-        ensure!(cw[..k] == msg[..], "not-systematic", "codeword {cw:?} does not begin with the message {msg:?}");
-        ensure!(h.syndrome_ok(&cw), "not-codeword", "encode({msg:?}) = {cw:?} violates a parity check of H");
+        ensure!(cw[..k] == msg[..], "not-systematic", "codeword {cw:?} does not begin with the message {msg:?} (message layout {})", layout_name(lay));
+        ensure!(h.syndrome_ok(&cw), "not-codeword", "encode({msg:?}) = {cw:?} violates a parity check of H (message layout {})", layout_name(lay));
         if msg.iter().all(|&b| b == 0) {
             ensure!(cw.iter().all(|&b| b == 0), "zero", "encode(0) is not the zero word");
         }
@@ -255,7 +260,7 @@ pub fn property() -> Property {
         id: "C02",
         subs: vec![Box::new(Sub {
             name: "encoder",
-            rule: "H with 1 <= r <= n <= 16 (thorough 48) built by class: exact staircase tail + random H0; near-staircase (one toggled tail cell anywhere incl. row 0, staircase shifted by one column); [A | P L U] with a random invertible tail; uniform dense; singular tail by construction (duplicated column, zero column, a row equal to the sum of two others); square (k = 0); single row; ones inserted in shuffled order. Oracle: own GF(2) rank of the last r columns decides Ok / Err(SubmatrixNotInvertible), never a panic; for Ok all 2^k messages (k <= 8) or 64 pseudo-random ones: length n, first k symbols = message, own H c = 0, encode(0) = 0, linearity on consecutive pairs. Non-trivial = (k >= 1, r >= 2, invertible tail) or (singular tail, r >= 2); inner = encoded messages",
+            rule: "H with 1 <= r <= n <= 16 (thorough 48) built by class: exact staircase tail + random H0; near-staircase (one toggled tail cell anywhere incl. row 0, staircase shifted by one column); [A | P L U] with a random invertible tail; uniform dense; singular tail by construction (duplicated column, zero column, a row equal to the sum of two others); square (k = 0); single row; ones inserted in shuffled order. Oracle: own GF(2) rank of the last r columns decides Ok / Err(SubmatrixNotInvertible), never a panic; for Ok all 2^k messages (k <= 8) or 64 pseudo-random ones, handed over in six memory layouts in turn (owned, reversed view, stride 2, stride -2, offset sub-range, owned with negative stride): length n, first k symbols = message, own H c = 0, encode(0) = 0, linearity on consecutive pairs. Non-trivial = (k >= 1, r >= 2, invertible tail) or (singular tail, r >= 2); inner = encoded messages",
             cases: |t| t.pick(300_000, 6_000_000),
             strategy: |t| strategy(t.pick(16, 48)),
             check,
